@@ -77,6 +77,14 @@ def run_layers_case(case):
             if ckw:
                 return {'skip': 'tatsu.parse has no separate compile step'}
             run = lambda t, kw: tatsu.parse(text, t, **kw)    # noqa: E731
+        elif case['backend'] == 'modelsource':
+            # the parser class of the generated MODEL source: settings given to its constructor are the layer below the directives
+            from tatsu.api import to_parsermodel_sourcecode
+            src = to_parsermodel_sourcecode(text, name='L')
+            ns = {}
+            exec(compile(src, '<modelsource>', 'exec'), ns)
+            parser = ns['LParser'](**ckw)
+            run = lambda t, kw: parser.parse(t, **kw)         # noqa: E731
         else:
             src = tatsu.to_python_sourcecode(text, name='L', **ckw)
             ns = {}
